@@ -292,9 +292,36 @@ func runHostile(o *opts) {
 		distinct["sp"+sf.name] = true
 		rmrf(p.Base)
 	}
+	// (e) a relative cache setting that climbs out of the project, used from sub-directories: objects
+	// go to the CONFIGURED cache directory (relative to the project root), nowhere else
+	for _, cwd := range []string{"", "sub", "sub/deep"} {
+		for _, cp := range []bool{false, true} {
+			sc++
+			base := scenarioDir(o, "hostile", sc)
+			p := newProject(o, base, "in")
+			p.CacheDir = filepath.Join(base, "extcache") // = <root>/../../extcache
+			p.CacheCfg = "../../extcache"
+			p.init()
+			must(os.WriteFile(filepath.Join(base, "outer", "sentinel.txt"), []byte("do not touch"), 0o644))
+			must(os.MkdirAll(filepath.Join(p.Root, "sub", "deep"), 0o755))
+			must(os.MkdirAll(filepath.Join(p.Root, "data"), 0o755))
+			must(os.WriteFile(filepath.Join(p.Root, "data", "f.txt"), []byte("payload"), 0o644))
+			p.writeStage("s.yaml", &StageRec{Out: []Art{{Path: "data", IsDir: true}}})
+			if res := p.dud("", "stage", "add", "s.yaml"); res.Exit != 0 {
+				must(fmt.Errorf("hostile setup: %s", res.Stderr))
+			}
+			skip := []string{p.Root, p.CacheDir, p.Xdg}
+			run(p, skip, Cmd{Kind: "commit", Copy: cp, Cwd: cwd}, want(11, 20, 13, 1), "commit from "+cwd+" with a relative cache outside the project", map[string]interface{}{"cwd": cwd})
+			rmrf(filepath.Join(p.Root, "data"))
+			run(p, skip, Cmd{Kind: "checkout", Copy: cp, Cwd: cwd}, want(11, 20, 13), "checkout from "+cwd+" with a relative cache outside the project", map[string]interface{}{"cwd": cwd})
+			s.count("relative-cache-outside")
+			distinct[fmt.Sprintf("rc%s%v", cwd, cp)] = true
+			rmrf(p.Base)
+		}
+	}
 	s.Cases = len(all)
 	s.Nontrivial = len(distinct)
-	s.Rule = "unusual stage paths given to stage add (outside the project, surrounding blanks; accepted: inner blanks, a sub-directory, ..name) followed by status and commit; hostile index lines (../x, absolute, a/../../x, root-name/../x; accepted: a/../x inside, ..name) x {commit, checkout, status, run, graph}; hostile stage files ('..' at every position, absolute paths, a/../../b, ..foo, as output / input / working dir) through `dud stage add` (+ run/commit/checkout when accepted); hostile directory manifests (entry ../x, ../../x, /abs, a/b, '.', '..', empty, path != key, NUL) x {checkout, checkout --copy, commit, status, pull}; a sentinel tree around the project is hashed before/after; every case is non-trivial; distinct by (path, position / command)"
+	s.Rule = "a relative cache setting that climbs out of the project x invocation directory; unusual stage paths given to stage add (outside the project, surrounding blanks; accepted: inner blanks, a sub-directory, ..name) followed by status and commit; hostile index lines (../x, absolute, a/../../x, root-name/../x; accepted: a/../x inside, ..name) x {commit, checkout, status, run, graph}; hostile stage files ('..' at every position, absolute paths, a/../../b, ..foo, as output / input / working dir) through `dud stage add` (+ run/commit/checkout when accepted); hostile directory manifests (entry ../x, ../../x, /abs, a/b, '.', '..', empty, path != key, NUL) x {checkout, checkout --copy, commit, status, pull}; a sentinel tree around the project is hashed before/after; every case is non-trivial; distinct by (path, position / command)"
 	if len(all) > 0 {
 		s.Samples = append(s.Samples, all[0].Info, all[len(all)/2].Info)
 	}
